@@ -90,8 +90,22 @@ pub fn run_oracles(
     nontrivial: fn(&Case, &Ran) -> bool,
     tagger: fn(&Case, &Ran, &mut Acc),
 ) -> Option<Ran> {
+    run_oracles_opts(case, case_seed, variant, acc, None, oracles, nontrivial, tagger)
+}
+
+#[allow(clippy::too_many_arguments)]
+pub fn run_oracles_opts(
+    case: &Case,
+    case_seed: u64,
+    variant: &str,
+    acc: &mut Acc,
+    opts: Option<crate::refint::RefOpts>,
+    oracles: &[Oracle],
+    nontrivial: fn(&Case, &Ran) -> bool,
+    tagger: fn(&Case, &Ran, &mut Acc),
+) -> Option<Ran> {
     acc.cases += 1;
-    let ran = standard_run(case, acc, None)?;
+    let ran = standard_run(case, acc, opts)?;
     let h = case_hash(case, &ran.pr);
     acc.distinct.insert(h);
     for o in oracles {
@@ -473,17 +487,64 @@ pub const META_C05: Meta = Meta {
 
 pub fn c05(case_seed: u64, acc: &mut Acc) {
     let mut r = Prng::new(case_seed);
+    if r.chance(15, 1000) {
+        // wide rows: 9-11 one-bit inputs, one source row with 8-10 X (256-1024 assignments),
+        // optionally a clock column (x3) - beyond what fits a u8 or a small fixed-size buffer
+        let n = 9 + r.below(3);
+        let mut sigs: Vec<Sig> = (0..n).map(|i| Sig { name: format!("I{i}"), bits: 1, kind: SigKind::In(InVal::V((i % 2) as i64)) }).collect();
+        sigs.insert(r.below(n), Sig { name: "Q".into(), bits: 8, kind: SigKind::Out });
+        let header: Vec<String> = sigs.iter().map(|s| s.name.clone()).collect();
+        let nx = 8 + r.below(2);
+        let with_c = r.chance(1, 3);
+        let mut kinds: Vec<u8> = (0..n).map(|i| if i < nx { 1 } else { 0 }).collect();
+        if with_c {
+            kinds[n - 1] = 2;
+        }
+        r.shuffle(&mut kinds);
+        let mut ki = 0;
+        let entries: Vec<Entry> = sigs
+            .iter()
+            .map(|s| {
+                if s.is_input() {
+                    let k = kinds[ki];
+                    ki += 1;
+                    match k {
+                        1 => Entry::X(false),
+                        2 => Entry::C(false),
+                        _ => Entry::Lit(1, Radix::Dec),
+                    }
+                } else {
+                    Entry::Lit(5, Radix::Dec)
+                }
+            })
+            .collect();
+        let case = Case {
+            program: Program { header, items: vec![Item::Row(1, entries.clone()), Item::Row(2, entries.iter().map(|e| if matches!(e, Entry::X(_)) { Entry::Lit(0, Radix::Dec) } else { e.clone() }).collect())] },
+            signals: sigs,
+            script: Script { layout: vec![], values: ValueFn::Unique { salt: 1, narrow: true }, faults: vec![], override_write: r.chance(1, 2) },
+            layout_opts: crate::pp::Layout::plain(),
+            rng_seed: 1,
+        };
+        acc.tag("wide_row_8_to_10_X");
+        c05_case_opts(&case, case_seed, "wide", acc, Some(crate::refint::RefOpts { max_rows: 3300, max_steps: 8000, ..Default::default() }));
+        return;
+    }
     let cfg = profile_expand();
     let case = gen::generate(&mut r, &cfg);
     c05_case(&case, case_seed, "gen", acc);
 }
 
 fn c05_case(case: &Case, case_seed: u64, variant: &str, acc: &mut Acc) {
-    run_oracles(
+    c05_case_opts(case, case_seed, variant, acc, None)
+}
+
+fn c05_case_opts(case: &Case, case_seed: u64, variant: &str, acc: &mut Acc, opts: Option<crate::refint::RefOpts>) {
+    run_oracles_opts(
         case,
         case_seed,
         variant,
         acc,
+        opts,
         &[o_accepted, o_rows, o_protocol],
         |_c, ran| {
             let s = &ran.rf.stats;
